@@ -246,6 +246,26 @@ pub fn run_op(op: &str, args: &[&str]) -> Option<String> {
             Some(rt) => format!("SOME|{}|{}", s_fq2(&rt), s_fq2(&(rt * rt))),
             None => "NONE".into(),
         },
+        (["fq2", "law"], [a, b]) => {
+            // C07 on Fq2: the product is canonical — `==`, is_zero and later operations agree with its encoding
+            let p = p_fq2(a)? * p_fq2(b)?;
+            let enc = p.to_slice();
+            let fresh = Fq2::from_slice(&enc)?;
+            let mut laws = "LAWS-OK".to_string();
+            if p != fresh {
+                laws = "LAWFAIL:eq-vs-encoding".into();
+            }
+            if p.is_zero() != (enc == [0u8; 64]) {
+                laws = "LAWFAIL:is_zero".into();
+            }
+            if p.real().is_zero() != (enc[32..] == [0u8; 32]) || p.imaginary().is_zero() != (enc[..32] == [0u8; 32]) {
+                laws = "LAWFAIL:component-is_zero".into();
+            }
+            if (p + Fq2::one()).to_slice() != (fresh + Fq2::one()).to_slice() || (p - p).to_slice() != [0u8; 64] || !(p - fresh).is_zero() {
+                laws = "LAWFAIL:later-op".into();
+            }
+            format!("{}|{}", hex(&enc), laws)
+        }
         (["fq2", o], [a, b]) => s_fq2(&fq2_bin(o, form, p_fq2(a)?, p_fq2(b)?)?),
         // ---------------- groups ----------------
         (["g1", "add"], [a, b]) => out_g1(&(p_g1(a)? + p_g1(b)?)),
